@@ -84,7 +84,7 @@ def main():
             "engine": "xmc",
             "level_claimed": {"category": c["cat"], "text": c["text"], "design_ref": "DESIGN.md §" + c["sec"]},
             "level_note": c["note"],
-            "technique": c["technique"],
+            "technique": c["technique"] + ("" if pid in ("C09","C14","C04") else "; plus the value-class and size (scale) families listed in the evidence rule"),
         })
     na = [{"property_id": p, "reason": NA_REASON.get(p, "check not built yet (work in progress; see DESIGN.md §4 for the planned bounded exhaustive exploration)")} for p in ALL if p not in CHECKS]
     m = {
